@@ -1199,10 +1199,16 @@ sc_main(int argc, char **argv) {
 	{
 		sc_point_t *p1; uint32_t n1, l1; char *g1;
 		exec_one(pf, 0, 0);
+		if (SC_V_TIMEOUT == sc_sh->verdict) {	/* loaded machine: once more with the long limit, as explore() does */
+			ex_time_limit = 120.0; exec_one(pf, 0, 0); ex_time_limit = 10.0; ex_retried_timeouts ++;
+		}
 		n1 = sc_sh->npoints; l1 = sc_sh->log_len;
 		p1 = (sc_point_t *)malloc(sizeof(sc_point_t) * (n1 + 1)); memcpy(p1, sc_sh->points, sizeof(sc_point_t) * n1);
 		g1 = (char *)malloc(l1 + 1); memcpy(g1, sc_sh->log, l1);
 		exec_one(pf, 0, 0);
+		if (SC_V_TIMEOUT == sc_sh->verdict) {
+			ex_time_limit = 120.0; exec_one(pf, 0, 0); ex_time_limit = 10.0; ex_retried_timeouts ++;
+		}
 		if (n1 != sc_sh->npoints || l1 != sc_sh->log_len || 0 != memcmp(p1, sc_sh->points, sizeof(sc_point_t) * n1) || 0 != memcmp(g1, sc_sh->log, l1)) {
 			printf("HARNESS-ERROR\t%s\tdefault execution is not deterministic (points %u vs %u, log %u vs %u)\n", ex_sc->name, n1, sc_sh->npoints, l1, sc_sh->log_len);
 			fflush(stdout);
